@@ -190,6 +190,7 @@ func (w *walker) stmt(s ast.Stmt, st state) state {
 				if x.Tok != token.DEFINE {
 					w.killVar(id, &st)
 				}
+				w.localAccess(id, true, &st)
 				continue
 			}
 			w.expr(l, true, &st)
@@ -201,6 +202,9 @@ func (w *walker) stmt(s ast.Stmt, st state) state {
 				if vs, ok := sp.(*ast.ValueSpec); ok {
 					for _, v := range vs.Values {
 						w.expr(v, false, &st)
+					}
+					for _, id := range vs.Names {
+						w.localAccess(id, true, &st)
 					}
 				}
 			}
@@ -216,6 +220,7 @@ func (w *walker) stmt(s ast.Stmt, st state) state {
 		for _, r := range x.Results {
 			w.expr(r, false, &st)
 		}
+		w.resultWrites(x, &st)
 		w.doExit(st)
 		return deadState()
 	case *ast.BranchStmt:
@@ -318,6 +323,7 @@ func (w *walker) stmt(s ast.Stmt, st state) state {
 					if x.Tok != token.DEFINE {
 						w.killVar(id, &h)
 					}
+					w.localAccess(id, true, &h)
 				} else {
 					w.expr(kv, true, &h)
 				}
